@@ -310,4 +310,96 @@ Proof.
   - rewrite HE. cbn; reflexivity.
 Qed.
 
+(* ------------------------------------------------------------------ FIN late *)
+Lemma fin_late : forall st0 a, stream_ok st0 ->
+  requiv (rq_recv fx O cl st0 a true) (rbind (rq_recv fx O cl st0 a false) recv_fin).
+Proof.
+  intros st0 a Hok.
+  assert (HL : s_blocked st0 = false -> s_session st0 = None -> LH (set_buf st0 []))
+    by (apply LH_of_ok; assumption).
+  eapply requiv_trans; [|apply requiv_sym; apply requiv_rbind; [apply (recv_resume fx O cl Htr); assumption | intros; apply requiv_refl]].
+  destruct Hok as (K1 & K2 & K3).
+  rewrite rq_recv_fin. cbv zeta. unfold resume.
+  destruct (s_blocked st0) eqn:Eb.
+  { cbn [rbind]. unfold recv_fin. rewrite recv_fin_blocked by (destruct st0; cbn in *; congruence).
+    cbn. split; [reflexivity|]. destruct st0; reflexivity. }
+  destruct (s_session st0) as [sess|] eqn:Es.
+  { rewrite K2 by (auto; congruence). cbn [rbind app]. unfold recv_fin.
+    rewrite (recv_fin_session _ sess) by (destruct st0; cbn in *; congruence).
+    cbn [prepend requiv]. split; [|destruct st0; reflexivity].
+    replace (s_id (set_buf st0 [])) with (s_id st0) by (destruct st0; reflexivity).
+    cbn. rewrite ?app_nil_r. reflexivity. }
+  specialize (HL eq_refl eq_refl).
+  set (buf := s_buf st0 ++ a).
+  replace (set_buf (set_ended (set_buf st0 buf) true) []) with (set_ended (set_buf st0 []) true) by (destruct st0; reflexivity).
+  destruct (is_nil buf) eqn:En; cbn [andb].
+  - apply is_nil_true in En. rewrite En. rewrite !rq_loop_nil, set_buf_set_buf. cbn [rbind]. unfold recv_fin.
+    destruct (is_none (s_cur st0)) eqn:Ec.
+    + rewrite recv_fin_lone; try (destruct st0; cbn in *; congruence).
+      * replace (check_cl (set_buf st0 [])) with (check_cl st0) by (destruct st0; reflexivity).
+        destruct (check_cl st0); [|cbn; reflexivity]. cbn [prepend app requiv]. split; destruct st0; reflexivity.
+      * destruct st0 as [i bf [cu|] se bl en hs cn ex pu sy bt bp]; cbn in *; congruence.
+    + rewrite recv_fin_stuck.
+      * unfold finish. rewrite s_buf_set_buf.
+        replace (s_blocked (set_buf (set_ended (set_buf st0 []) true) [])) with false by (destruct st0; cbn in *; congruence).
+        replace (s_cur (set_buf (set_ended (set_buf st0 []) true) [])) with (s_cur st0) by (destruct st0; reflexivity).
+        rewrite Ec. cbn. reflexivity.
+      * destruct st0; cbn in *; congruence.
+      * destruct st0; cbn in *; congruence.
+      * right. destruct st0 as [i bf [cu|] se bl en hs cn ex pu sy bt bp]; cbn in *; congruence.
+      * left. rewrite s_buf_set_buf. reflexivity.
+  - apply loop_fin; [exact HL | exact En |].
+    unfold measure, rq_fuel, Zlen. destruct (is_none (s_cur (set_buf st0 []))); lia.
+Qed.
+
+(* ------------------------------------------------------------------ two deliveries = one *)
+Lemma two_chunks : forall st0 a b fin, stream_ok st0 ->
+  requiv (rq_recv fx O cl st0 (a ++ b) fin)
+         (rbind (rq_recv fx O cl st0 a false) (fun s => rq_recv fx O cl s b fin)).
+Proof.
+  intros st0 a b [|] Hok; [|apply (split_nofin fx O cl Htr Hem); assumption].
+  eapply requiv_trans; [apply fin_late; assumption|].
+  eapply requiv_trans.
+  { apply requiv_rbind; [apply (split_nofin fx O cl Htr Hem); assumption | intros; apply requiv_refl]. }
+  rewrite rbind_assoc.
+  apply requiv_rbind_when; [apply requiv_refl|].
+  intros e s Hr. apply requiv_sym. apply fin_late. eapply (recv_ok fx O cl Htr Hem); eauto.
+Qed.
+
+Lemma rbind_ret : forall r, requiv (rbind r (fun s => RVal [] s)) r.
+Proof. destruct r; cbn; [rewrite app_nil_r; auto | reflexivity..]. Qed.
+
+(* ------------------------------------------------------------------ any number of deliveries = one *)
+Lemma chunks_whole : forall parts st0 first fin, stream_ok st0 ->
+  requiv (feed fx O cl st0 (mk_chunks first parts fin)) (rq_recv fx O cl st0 (first ++ concat parts) fin).
+Proof.
+  induction parts as [|p ps IH]; intros st0 first fin Hok; cbn [mk_chunks feed concat].
+  - rewrite app_nil_r. apply rbind_ret.
+  - eapply requiv_trans; [|apply requiv_sym; apply two_chunks; assumption].
+    apply requiv_rbind_when; [apply requiv_refl|].
+    intros e s Hr. apply IH. eapply (recv_ok fx O cl Htr Hem); eauto.
+Qed.
+
+(* two splittings of the same byte string are indistinguishable *)
+Lemma chunks_any : forall st0 f1 p1 f2 p2 fin, stream_ok st0 ->
+  f1 ++ concat p1 = f2 ++ concat p2 ->
+  requiv (feed fx O cl st0 (mk_chunks f1 p1 fin)) (feed fx O cl st0 (mk_chunks f2 p2 fin)).
+Proof.
+  intros st0 f1 p1 f2 p2 fin Hok E.
+  eapply requiv_trans; [apply chunks_whole; assumption|]. rewrite E. apply requiv_sym. apply chunks_whole; assumption.
+Qed.
+
 End Fin.
+
+(* the hypothesis is satisfiable: a fresh stream, a stream inside a DATA frame, a stream holding half a frame header *)
+Example stream_ok_fresh : forall sid, stream_ok (new_stream sid).
+Proof. intros sid. repeat split; cbn; intros; try reflexivity; congruence. Qed.
+Example stream_ok_in_data : stream_ok (set_cur (set_hstate (new_stream 4) 1) (Some (0, 100))).
+Proof. repeat split; cbn; intros; try reflexivity; congruence. Qed.
+Example stream_ok_half_header : stream_ok (set_buf (new_stream 0) [64]).
+Proof. repeat split; cbn; intros; try reflexivity; congruence. Qed.
+
+(* what one delivery leaves behind is fit for the next one (so every reachable state qualifies) *)
+Lemma stream_ok_preserved : forall fx O cl, fx_trunc fx = true -> fx_endmark fx = true ->
+  forall st0 d e st', stream_ok st0 -> rq_recv fx O cl st0 d false = RVal e st' -> stream_ok st'.
+Proof. exact recv_ok. Qed.
